@@ -53,6 +53,12 @@ def run(ctx, log):
         "stel i = 0; zolang i < 3 { i += 1; stel s = \"abc\"; s[0] = \"\"; print(\"{}\", s) } i", "stel i = 0; stel r = []; zolang i < 2 { i += 1; stel s = \"xy\"; s[1] = \"!\"; r = [r, s] } r",
         "functie f() { stel s = \"abc\"; s[0] = \"Z\"; s } [f(), f(), \"abc\"]", "stel a = \"q\"; { stel b = \"q\"; b[0] = \"w\" } als ja { stel c = \"q\"; c[0] = \"e\" } [a, \"q\"]",
     ]
+    directed += [
+        # writes made by callees into a sequence the caller (and an enclosing array) holds, with calls in between
+        "stel rij = [0, 0, 0]; stel tabel = [rij, \"los\"]; functie zet(r, i) { r[i] = string(i * 11); i; 0 } functie niets() { 0 } niets(); zet(rij, 1); 5; zet(rij, 2); 6; niets(); [rij, tabel]",
+        "stel rij = [\"a\", \"b\"]; functie vul(r) { stel i = 0; zolang i < lengte(r) { r[i] = [i + 0.5]; i += 1 } 0 } functie n() { } n(); vul(rij); 1; n(); stel k = rij[1]; [k[0], rij]",
+        "stel s = \"héé\"; stel d = [s]; functie wis(t) { t[1] = string(2.5); 1; 0 } functie n() { 0 } n(); wis(s); 0; n(); n(); [s, d, lengte(s)]",
+    ]
     progs += directed
     # an array stored into itself or into one of its own elements is still the same array (read back through the
     # cycle, never printed: printing a cyclic array is the recorded finding D26)
